@@ -21,7 +21,8 @@ CONSTANTS W,          \* set of worker ids (small naturals)
           Extra,      \* worker_extra_pending_inputs
           Retry,      \* Pool(retry=...)
           Poison,     \* inputs that kill every worker that runs them (target raises)
-          Bad,        \* workers that die on whatever input they run
+          Bad,        \* workers that die (worker-specific failure, end marker written) on whatever input they run ...
+          BadAfter,   \* ... once they have answered BadAfter inputs (0 = on their first input)
           MaxKills,   \* external kills (SIGKILL: bare EOF, no end marker)
           Refuse,     \* set of <<w, x>> the user enqueue_fn refuses
           MaxDyRaise, \* how often an enqueue may fail on a dying-but-alive worker
@@ -44,6 +45,7 @@ variables
   nxt = 1, ret = <<>>, outcome = "running", ready = {}, lastHas = TRUE, round = 0, todo = {},
   lastRef = <<0, 0>>,                                  \* last refused <<worker, input>> (livelock detection)
   handed = [x \in 1..N |-> <<>>], answered = {}, refusedEver = {},
+  nproc = [w \in W |-> 0],                             \* inputs answered by each worker (only counted for Bad workers)
   cbres = <<>>,                                        \* results passed to worker_callback(worker, 'finished', result)
   gen = [x \in 1..N |-> 0],                            \* per-worker callable: the worker input x was generated for
   enqT = 0,                                            \* worker of the enqueue call in progress (read by env)
@@ -161,9 +163,10 @@ e0: while (TRUE) {
       either { \* worker ew runs its next input
          with (ew \in {x \in W : st[x] = "run" /\ inbox[x] # <<>>}) {
             await ~Reduced \/ ((PoolAt("wait") \/ ((PoolAt("tcall") \/ PoolAt("talive")) /\ enqT = ew)) /\ ew >= lastEnvW);
-            if (Head(inbox[ew]) \in Poison \/ ew \in Bad) {
+            if (Head(inbox[ew]) \in Poison \/ (ew \in Bad /\ nproc[ew] >= BadAfter)) {
                out[ew] := Append(out[ew], <<"end">>); st[ew] := "dying"; inbox[ew] := <<>> }
-            else { out[ew] := Append(out[ew], <<"res", Head(inbox[ew])>>); inbox[ew] := Tail(inbox[ew]) };
+            else { out[ew] := Append(out[ew], <<"res", Head(inbox[ew])>>); inbox[ew] := Tail(inbox[ew]);
+                   if (ew \in Bad) { nproc[ew] := nproc[ew] + 1 } };
             lastEnvW := ew;
             if (Hist) { h := Append(h, <<ci, "step", ew>>) }
          }
@@ -188,7 +191,7 @@ e0: while (TRUE) {
 CONSTANT defaultInitValue
 VARIABLES pc, st, inbox, out, qopen, kills, dyraise, pending, ppw, retries, 
           closed, depleted, nxt, ret, outcome, ready, lastHas, round, todo, 
-          lastRef, handed, answered, refusedEver, cbres, gen, enqT, ci, 
+          lastRef, handed, answered, refusedEver, nproc, cbres, gen, enqT, ci, 
           lastEnvW, h, cis, stack
 
 (* define statement *)
@@ -201,9 +204,9 @@ VARIABLES tw, has, fromR, inp, dw, offered, cur, m
 
 vars == << pc, st, inbox, out, qopen, kills, dyraise, pending, ppw, retries, 
            closed, depleted, nxt, ret, outcome, ready, lastHas, round, todo, 
-           lastRef, handed, answered, refusedEver, cbres, gen, enqT, ci, 
-           lastEnvW, h, cis, stack, tw, has, fromR, inp, dw, offered, cur, m
-        >>
+           lastRef, handed, answered, refusedEver, nproc, cbres, gen, enqT, 
+           ci, lastEnvW, h, cis, stack, tw, has, fromR, inp, dw, offered, cur, 
+           m >>
 
 ProcSet == {"pool"} \cup {"env"}
 
@@ -230,6 +233,7 @@ Init == (* Global variables *)
         /\ handed = [x \in 1..N |-> <<>>]
         /\ answered = {}
         /\ refusedEver = {}
+        /\ nproc = [w \in W |-> 0]
         /\ cbres = <<>>
         /\ gen = [x \in 1..N |-> 0]
         /\ enqT = 0
@@ -282,8 +286,8 @@ te0(self) == /\ pc[self] = "te0"
              /\ UNCHANGED << st, inbox, out, qopen, kills, dyraise, pending, 
                              ppw, closed, ret, outcome, ready, lastHas, round, 
                              todo, lastRef, handed, answered, refusedEver, 
-                             cbres, enqT, ci, lastEnvW, h, cis, stack, tw, dw, 
-                             offered, cur, m >>
+                             nproc, cbres, enqT, ci, lastEnvW, h, cis, stack, 
+                             tw, dw, offered, cur, m >>
 
 te1(self) == /\ pc[self] = "te1"
              /\ enqT' = tw[self]
@@ -316,8 +320,8 @@ te1(self) == /\ pc[self] = "te1"
              /\ UNCHANGED << st, inbox, out, qopen, kills, dyraise, pending, 
                              ppw, closed, depleted, nxt, ret, outcome, ready, 
                              round, todo, lastRef, handed, answered, 
-                             refusedEver, cbres, gen, ci, lastEnvW, h, cis, dw, 
-                             offered, cur, m >>
+                             refusedEver, nproc, cbres, gen, ci, lastEnvW, h, 
+                             cis, dw, offered, cur, m >>
 
 tcall(self) == /\ pc[self] = "tcall"
                /\ lastEnvW' = 0
@@ -384,7 +388,7 @@ tcall(self) == /\ pc[self] = "tcall"
                           /\ UNCHANGED << retries, refusedEver >>
                /\ UNCHANGED << st, out, qopen, kills, closed, depleted, nxt, 
                                ret, outcome, ready, round, todo, answered, 
-                               cbres, gen, enqT, h, dw, offered, cur, m >>
+                               nproc, cbres, gen, enqT, h, dw, offered, cur, m >>
 
 talive(self) == /\ pc[self] = "talive"
                 /\ lastEnvW' = 0
@@ -407,8 +411,8 @@ talive(self) == /\ pc[self] = "talive"
                 /\ UNCHANGED << st, inbox, out, qopen, kills, dyraise, pending, 
                                 ppw, retries, closed, depleted, nxt, ret, 
                                 outcome, ready, lastHas, round, todo, lastRef, 
-                                handed, answered, refusedEver, cbres, gen, 
-                                enqT, h, tw, has, fromR, inp, cur, m >>
+                                handed, answered, refusedEver, nproc, cbres, 
+                                gen, enqT, h, tw, has, fromR, inp, cur, m >>
 
 te2(self) == /\ pc[self] = "te2"
              /\ IF Retry
@@ -427,8 +431,8 @@ te2(self) == /\ pc[self] = "te2"
              /\ UNCHANGED << st, inbox, out, qopen, kills, dyraise, pending, 
                              ppw, closed, depleted, nxt, ret, outcome, ready, 
                              round, todo, lastRef, handed, answered, 
-                             refusedEver, cbres, gen, enqT, ci, lastEnvW, h, 
-                             cis, dw, offered, cur, m >>
+                             refusedEver, nproc, cbres, gen, enqT, ci, 
+                             lastEnvW, h, cis, dw, offered, cur, m >>
 
 TryEnqueue(self) == te0(self) \/ te1(self) \/ tcall(self) \/ talive(self)
                        \/ te2(self)
@@ -444,9 +448,9 @@ hd0(self) == /\ pc[self] = "hd0"
              /\ pc' = [pc EXCEPT ![self] = "hd1"]
              /\ UNCHANGED << st, inbox, out, qopen, kills, dyraise, depleted, 
                              nxt, ret, outcome, ready, lastHas, round, todo, 
-                             lastRef, handed, answered, refusedEver, cbres, 
-                             gen, enqT, ci, lastEnvW, h, cis, stack, tw, has, 
-                             fromR, inp, dw, offered, cur, m >>
+                             lastRef, handed, answered, refusedEver, nproc, 
+                             cbres, gen, enqT, ci, lastEnvW, h, cis, stack, tw, 
+                             has, fromR, inp, dw, offered, cur, m >>
 
 hd1(self) == /\ pc[self] = "hd1"
              /\ IF retries # <<>> /\ (Idle \ offered[self]) # {} /\ outcome = "running"
@@ -479,8 +483,8 @@ hd1(self) == /\ pc[self] = "hd1"
              /\ UNCHANGED << st, inbox, out, qopen, kills, dyraise, pending, 
                              ppw, retries, closed, depleted, nxt, ret, ready, 
                              lastHas, round, todo, lastRef, handed, answered, 
-                             refusedEver, cbres, gen, enqT, ci, lastEnvW, h, 
-                             cis, dw, cur, m >>
+                             refusedEver, nproc, cbres, gen, enqT, ci, 
+                             lastEnvW, h, cis, dw, cur, m >>
 
 hd2(self) == /\ pc[self] = "hd2"
              /\ pc' = [pc EXCEPT ![self] = Head(stack[self]).pc]
@@ -490,8 +494,8 @@ hd2(self) == /\ pc[self] = "hd2"
              /\ UNCHANGED << st, inbox, out, qopen, kills, dyraise, pending, 
                              ppw, retries, closed, depleted, nxt, ret, outcome, 
                              ready, lastHas, round, todo, lastRef, handed, 
-                             answered, refusedEver, cbres, gen, enqT, ci, 
-                             lastEnvW, h, cis, tw, has, fromR, inp, cur, m >>
+                             answered, refusedEver, nproc, cbres, gen, enqT, 
+                             ci, lastEnvW, h, cis, tw, has, fromR, inp, cur, m >>
 
 HandleDeath(self) == hd0(self) \/ hd1(self) \/ hd2(self)
 
@@ -504,8 +508,8 @@ p0 == /\ pc["pool"] = "p0"
       /\ UNCHANGED << st, inbox, out, qopen, kills, dyraise, pending, ppw, 
                       retries, closed, depleted, nxt, ret, outcome, ready, 
                       lastHas, round, lastRef, handed, answered, refusedEver, 
-                      cbres, gen, enqT, ci, lastEnvW, h, cis, stack, tw, has, 
-                      fromR, inp, dw, offered, cur, m >>
+                      nproc, cbres, gen, enqT, ci, lastEnvW, h, cis, stack, tw, 
+                      has, fromR, inp, dw, offered, cur, m >>
 
 p1 == /\ pc["pool"] = "p1"
       /\ IF todo # {} /\ lastHas /\ outcome = "running"
@@ -533,8 +537,8 @@ p1 == /\ pc["pool"] = "p1"
                  /\ UNCHANGED << todo, stack, tw, has, fromR, inp, cur >>
       /\ UNCHANGED << st, inbox, out, qopen, kills, dyraise, pending, ppw, 
                       retries, closed, depleted, nxt, ret, outcome, ready, 
-                      lastHas, lastRef, handed, answered, refusedEver, cbres, 
-                      gen, enqT, ci, lastEnvW, h, cis, dw, offered, m >>
+                      lastHas, lastRef, handed, answered, refusedEver, nproc, 
+                      cbres, gen, enqT, ci, lastEnvW, h, cis, dw, offered, m >>
 
 loop == /\ pc["pool"] = "loop"
         /\ IF pending > 0 /\ (W \ closed) # {} /\ outcome = "running"
@@ -543,8 +547,8 @@ loop == /\ pc["pool"] = "loop"
         /\ UNCHANGED << st, inbox, out, qopen, kills, dyraise, pending, ppw, 
                         retries, closed, depleted, nxt, ret, outcome, ready, 
                         lastHas, round, todo, lastRef, handed, answered, 
-                        refusedEver, cbres, gen, enqT, ci, lastEnvW, h, cis, 
-                        stack, tw, has, fromR, inp, dw, offered, cur, m >>
+                        refusedEver, nproc, cbres, gen, enqT, ci, lastEnvW, h, 
+                        cis, stack, tw, has, fromR, inp, dw, offered, cur, m >>
 
 wait == /\ pc["pool"] = "wait"
         /\ Ready # {}
@@ -559,8 +563,8 @@ wait == /\ pc["pool"] = "wait"
         /\ UNCHANGED << st, inbox, out, qopen, kills, dyraise, pending, ppw, 
                         retries, closed, depleted, nxt, ret, outcome, lastHas, 
                         round, todo, lastRef, handed, answered, refusedEver, 
-                        cbres, gen, enqT, h, stack, tw, has, fromR, inp, dw, 
-                        offered, cur, m >>
+                        nproc, cbres, gen, enqT, h, stack, tw, has, fromR, inp, 
+                        dw, offered, cur, m >>
 
 hdl == /\ pc["pool"] = "hdl"
        /\ IF ready # {} /\ outcome = "running"
@@ -584,9 +588,9 @@ hdl == /\ pc["pool"] = "hdl"
                   /\ UNCHANGED << out, qopen, ready, cur, m >>
        /\ UNCHANGED << st, inbox, kills, dyraise, pending, ppw, retries, 
                        closed, depleted, nxt, ret, outcome, lastHas, round, 
-                       todo, lastRef, handed, answered, refusedEver, cbres, 
-                       gen, enqT, ci, lastEnvW, h, cis, stack, tw, has, fromR, 
-                       inp, dw, offered >>
+                       todo, lastRef, handed, answered, refusedEver, nproc, 
+                       cbres, gen, enqT, ci, lastEnvW, h, cis, stack, tw, has, 
+                       fromR, inp, dw, offered >>
 
 disp == /\ pc["pool"] = "disp"
         /\ IF m[1] = "end"
@@ -644,8 +648,8 @@ disp == /\ pc["pool"] = "disp"
                    /\ UNCHANGED << dw, offered >>
         /\ UNCHANGED << st, inbox, out, qopen, kills, dyraise, retries, closed, 
                         depleted, nxt, ready, lastHas, round, todo, lastRef, 
-                        handed, refusedEver, gen, enqT, ci, lastEnvW, h, cis, 
-                        cur, m >>
+                        handed, refusedEver, nproc, gen, enqT, ci, lastEnvW, h, 
+                        cis, cur, m >>
 
 done == /\ pc["pool"] = "done"
         /\ IF outcome = "running"
@@ -658,8 +662,8 @@ done == /\ pc["pool"] = "done"
         /\ UNCHANGED << st, inbox, out, qopen, kills, dyraise, pending, ppw, 
                         retries, closed, depleted, nxt, ret, ready, lastHas, 
                         round, todo, lastRef, handed, answered, refusedEver, 
-                        cbres, gen, enqT, ci, lastEnvW, h, cis, stack, tw, has, 
-                        fromR, inp, dw, offered, cur, m >>
+                        nproc, cbres, gen, enqT, ci, lastEnvW, h, cis, stack, 
+                        tw, has, fromR, inp, dw, offered, cur, m >>
 
 fin == /\ pc["pool"] = "fin"
        /\ TRUE
@@ -667,20 +671,25 @@ fin == /\ pc["pool"] = "fin"
        /\ UNCHANGED << st, inbox, out, qopen, kills, dyraise, pending, ppw, 
                        retries, closed, depleted, nxt, ret, outcome, ready, 
                        lastHas, round, todo, lastRef, handed, answered, 
-                       refusedEver, cbres, gen, enqT, ci, lastEnvW, h, cis, 
-                       stack, tw, has, fromR, inp, dw, offered, cur, m >>
+                       refusedEver, nproc, cbres, gen, enqT, ci, lastEnvW, h, 
+                       cis, stack, tw, has, fromR, inp, dw, offered, cur, m >>
 
 pool == p0 \/ p1 \/ loop \/ wait \/ hdl \/ disp \/ done \/ fin
 
 e0 == /\ pc["env"] = "e0"
       /\ \/ /\ \E ew \in {x \in W : st[x] = "run" /\ inbox[x] # <<>>}:
                  /\ ~Reduced \/ ((PoolAt("wait") \/ ((PoolAt("tcall") \/ PoolAt("talive")) /\ enqT = ew)) /\ ew >= lastEnvW)
-                 /\ IF Head(inbox[ew]) \in Poison \/ ew \in Bad
+                 /\ IF Head(inbox[ew]) \in Poison \/ (ew \in Bad /\ nproc[ew] >= BadAfter)
                        THEN /\ out' = [out EXCEPT ![ew] = Append(out[ew], <<"end">>)]
                             /\ st' = [st EXCEPT ![ew] = "dying"]
                             /\ inbox' = [inbox EXCEPT ![ew] = <<>>]
+                            /\ nproc' = nproc
                        ELSE /\ out' = [out EXCEPT ![ew] = Append(out[ew], <<"res", Head(inbox[ew])>>)]
                             /\ inbox' = [inbox EXCEPT ![ew] = Tail(inbox[ew])]
+                            /\ IF ew \in Bad
+                                  THEN /\ nproc' = [nproc EXCEPT ![ew] = nproc[ew] + 1]
+                                  ELSE /\ TRUE
+                                       /\ nproc' = nproc
                             /\ st' = st
                  /\ lastEnvW' = ew
                  /\ IF Hist
@@ -696,7 +705,7 @@ e0 == /\ pc["env"] = "e0"
                        THEN /\ h' = Append(h, <<ci, "exit", ew>>)
                        ELSE /\ TRUE
                             /\ h' = h
-            /\ UNCHANGED <<inbox, out, kills>>
+            /\ UNCHANGED <<inbox, out, kills, nproc>>
          \/ /\ kills < MaxKills
             /\ \E ew \in {x \in W : st[x] = "run"}:
                  /\ ~Reduced \/ ((PoolAt("wait") \/ ((PoolAt("tcall") \/ PoolAt("talive")) /\ enqT = ew)) /\ ew >= lastEnvW)
@@ -708,7 +717,7 @@ e0 == /\ pc["env"] = "e0"
                        THEN /\ h' = Append(h, <<ci, "kill", ew>>)
                        ELSE /\ TRUE
                             /\ h' = h
-            /\ out' = out
+            /\ UNCHANGED <<out, nproc>>
       /\ pc' = [pc EXCEPT !["env"] = "e0"]
       /\ UNCHANGED << qopen, dyraise, pending, ppw, retries, closed, depleted, 
                       nxt, ret, outcome, ready, lastHas, round, todo, lastRef, 
